@@ -25,13 +25,19 @@ PATS = [(), ("A",), ("B*", "C")]
 STATUS_ORDER = ["shouldrun", "submitted", "running", "completed", "failed", "cancelled"]
 
 
-def _setup(shape, be, ea, eb, ec, ja, jb, states, hashing=False, hash_sit=0, c_state="none"):
+def _setup(shape, be, ea, eb, ec, ja, jb, states, hashing=False, hash_sit=0, c_state="none", mtimes=None):
     with q.notrace():
         pr = Project(shape, be, hashing=hashing)
         pr.add_sources(5)
+        if mtimes is None:
+            for k, (rel, e) in enumerate((("a", ea), ("b", eb), ("c", ec))):
+                if e:
+                    pr.w.file(rel, 6 + k, "out " + rel)
+    if mtimes is not None:            # symbolic modification times enter the world: traced from here on
         for k, (rel, e) in enumerate((("a", ea), ("b", eb), ("c", ec))):
             if e:
-                pr.w.file(rel, 6 + k, "out " + rel)
+                pr.w.file(rel, mtimes[k], "out " + rel)
+    with q.notrace() if mtimes is None else _nullctx():
         for nm, j, jid in (("A", ja, "11"), ("B", jb, "12")):
             if states[j] != "none":
                 pr.add_tracked(nm, jid, states[j])
@@ -47,6 +53,14 @@ def _setup(shape, be, ea, eb, ec, ja, jb, states, hashing=False, hash_sit=0, c_s
             pr.write_hashes(rec)
         pr.w.install()
     return pr
+
+
+class _nullctx:
+    def __enter__(self):
+        return self
+
+    def __exit__(self, *a):
+        return False
 
 
 def _oracle(pr, be, abstract, chg=None):
@@ -124,8 +138,13 @@ def q5b(ea: bool, eb: bool, ec: bool, ja: int, jb: int, jc: int) -> str:
 QUERY_CMDS = ("squeue", "sacct", "qstat", "bjobs", "sinfo")
 
 
-def _q5c(ea, eb, ec, ja, jb, hs):
+def _q5c(ea, eb, ec, ja, jb, hs, ma, mb, mc):
     sh = q.SHARD
+    symt = sh.get("symtimes", False)
+    if not symt and (ma != 0 or mb != 0 or mc != 0):
+        return q.SKIP
+    if symt and not (ma >= 0 and mb >= 0 and mc >= 0 and ma <= 100 and mb <= 100 and mc <= 100):
+        return q.SKIP
     be, shape = sh["be"], sh["shape"]
     states = STATES6
     if not (q.in_range(ja, 6) and q.in_range(jb, 6) and q.in_range(hs, 3)):
@@ -139,7 +158,7 @@ def _q5c(ea, eb, ec, ja, jb, hs):
     ja, jb, hs = q.pick(list(range(6)), ja), q.pick(list(range(6)), jb), q.pick([0, 1, 2], hs)
     if be == "sge" and (states[ja] in ("done", "failed", "cancelled") or states[jb] in ("failed", "cancelled")) and False:
         return q.SKIP
-    pr = _setup(shape, be, ea, eb, ec, ja, jb, states, hashing=hashing, hash_sit=hs)
+    pr = _setup(shape, be, ea, eb, ec, ja, jb, states, hashing=hashing, hash_sit=hs, mtimes=[ma, mb, mc] if symt else None)
     try:
         w = pr.w
         abstract = {"A": states[ja], "B": states[jb]}
@@ -192,11 +211,11 @@ def _q5c(ea, eb, ec, ja, jb, hs):
         pr.w.uninstall()
 
 
-def q5c(ea: bool, eb: bool, ec: bool, ja: int, jb: int, hs: int) -> str:
+def q5c(ea: bool, eb: bool, ec: bool, ja: int, jb: int, hs: int, ma: int, mb: int, mc: int) -> str:
     """
     post: _ == ""
     """
-    return q.run(_q5c, (ea, eb, ec, ja, jb, hs))
+    return q.run(_q5c, (ea, eb, ec, ja, jb, hs, ma, mb, mc))
 
 
 def _fshards(combos, **kw):
@@ -210,9 +229,10 @@ QUERIES = [
      "timeout": {"quick": 900, "thorough": 2400},
      "bound": "chain of 3 targets; existence of each output and the earlier job state of A and B (4 values quick / 6 thorough) symbolic, and - in the --endpoints shards - of the endpoint C (none / failed / cancelled); filter combination per shard: -s subsets %s x patterns %s x --endpoints x format {default, summary}: 8 combinations (quick), all 48 (thorough)" % (SSETS, PATS)},
     {"name": "Q5c", "fn": q5c,
-     "shards": {"quick": [dict(d, ja=k) for d in ({"be": "slurm", "shape": "chain3"}, {"be": "local", "shape": "fork3"}) for k in range(6)] + [{"be": "slurm", "shape": "chain3", "hashing": True, "ja": k} for k in (0, 4)],
-                "thorough": [{"be": b, "shape": s, "hashing": h, "ja": k} for b in ("slurm", "sge", "lsf", "local") for s in ("chain3", "fork3") for h in (False, True) for k in range(6)]},
+     "shards": {"quick": [dict(d, ja=k) for d in ({"be": "slurm", "shape": "chain3"}, {"be": "local", "shape": "fork3"}) for k in range(6)] + [{"be": "slurm", "shape": "chain3", "hashing": True, "ja": k} for k in (0, 4)] + [{"be": "slurm", "shape": "chain3", "ja": 0, "symtimes": True}],
+                "thorough": [{"be": b, "shape": s, "hashing": h, "ja": k} for b in ("slurm", "sge", "lsf", "local") for s in ("chain3", "fork3") for h in (False, True) for k in range(6)]
+                            + [{"be": "slurm", "shape": "chain3", "ja": k, "symtimes": True} for k in (0, 3, 4)]},
      "timeout": {"quick": 1500, "thorough": 3000},
      "bound": "3 targets (chain, fork); existence of each output, earlier job of A and B in one of 6 abstract states, spec hashing off / on with 3 record situations; a stale log of a removed target present; "
-              "sequence status -> run --dry-run -> (purity) -> run; backends slurm + local (quick), all four (thorough)"},
+              "sequence status -> run --dry-run -> (purity) -> run; backends slurm + local (quick), all four (thorough); one shard (quick) / three (thorough) with symbolic modification times (ints in 0..100) of the three outputs on Slurm"},
 ]
